@@ -150,8 +150,29 @@ fn execute(cfg: &Cfg, chunks: &[&[u8]]) -> Vec<StepObs> {
     let mut seen = 0usize;
     let mut conn: Option<Connection> = None;
     let mut status = Status::Waiting;
-    if let Err(p) = catch(|| w.settle()) {
-        status = Status::Panic(format!("{p} at {}", vcommon::last_panic_location()));
+    match catch(|| w.settle()) {
+        Err(p) => status = Status::Panic(format!("{p} at {}", vcommon::last_panic_location())),
+        Ok(()) => {
+            if let Some(r) = h.take() {
+                // terminated without reading anything
+                match r {
+                    Ok(c) => {
+                        conn = Some(c);
+                        status = Status::Authenticated;
+                    }
+                    Err(e) => status = Status::Aborted(e.to_string()),
+                }
+            }
+        }
+    }
+    if status.terminated() && !chunks.is_empty() {
+        // Attribute a termination before any input to the first chunk, so that it is judged.
+        let all = link.a2b.written();
+        seen = all.len();
+        out.push(StepObs {
+            reply: all,
+            status: status.clone(),
+        });
     }
     for c in chunks {
         if status.terminated() {
